@@ -114,7 +114,7 @@ def impl(op: str) -> str:
             return "ok"
         if k == "vm_der":
             try:
-                r, s = der.sigdecode_der(unhx(a[1]), use_broken_open_ssl_mechanism=True)
+                r, s = der.sigdecode_der_lax(unhx(a[1]))
             except (der.UnexpectedDER, ValueError):
                 return "err caught"
             return "ok %d %d" % (r, s)
@@ -128,7 +128,7 @@ def impl(op: str) -> str:
             checksigops.check_public_key_encoding(unhx(a[1]))
             return "ok"
         if k == "vm_secshape":
-            return _secshape(unhx(a[1]), a[2] == "1")
+            return _secshape(unhx(a[1]))
         if k == "vm_wpv":
             v = BitcoinSolutionChecker(None)._witness_program_version(unhx(a[1]))
             return "ok %s" % v
@@ -154,22 +154,23 @@ def impl(op: str) -> str:
 
 
 class _ShapeProbe:
-    """generator stand-in: sec_to_public_pair only needs p() and points_for_x(); we observe whether the encoding is
-    accepted, not the point"""
+    """generator stand-in: public_pair_for_blob's length/prefix decision is observed with a curve that contains every point"""
     def p(self):
-        return G.p()
+        return 1 << 256
 
     def points_for_x(self, x):
         return ((x, 0), (x, 1))
 
+    def contains_point(self, x, y):
+        return True
 
-def _secshape(sec, strict):
-    from pycoin.encoding.sec import EncodingError
-    try:
-        sec_to_public_pair(sec, _ShapeProbe(), strict=strict)
-    except EncodingError:
-        return "ok 0"
-    return "ok 1"
+
+def _secshape(sec):
+    blob = sec
+    if len(blob) == 65 and blob[0] in (6, 7):
+        # make the parity agree so that only the shape decides
+        blob = blob[:-1] + bytes([(blob[-1] & 0xFE) | (blob[0] & 1)])
+    return "ok %d" % (0 if checksigops.public_pair_for_blob(blob, _ShapeProbe()) is None else 1)
 
 
 # ------------------------------------------------------------------ oracles (cheap invariants on the implementation)
@@ -184,7 +185,7 @@ def oracle(op: str, out: str):
     if k == "vm_eval" and out.startswith("ok "):
         parts = out.split(" ")
         n = (0 if parts[1] == "~" else len(parts[1].split(","))) + (0 if parts[2] == "alt=~" else len(parts[2].split(",")))
-        if n > BitcoinVM.MAX_STACK_SIZE:
+        if n > BitcoinVM.MAX_STACK_SIZE and a[3] != "-":   # the limit is checked after each instruction (none for an empty script)
             return "evaluation succeeded with more than MAX_STACK_SIZE items"
         if int(parts[3][4:]) > BitcoinVM.MAX_OP_COUNT:
             return "evaluation succeeded with more than MAX_OP_COUNT counted operations"
